@@ -1,14 +1,532 @@
-(* Proofs/Matrix.v -- lemmas about Model/Matrix.v (dense matrices). *)
-From Coq Require Import List Arith Lia.
+(* Proofs/Matrix.v -- lemmas about Model/Matrix.v (dense matrices), part 1:
+   index arithmetic, the representation predicate [msp], the generic loop lemmas, and the
+   refinement lemma of every editing / reading operation of operations.rs.
+   Part 2 (arithmetic.rs, transpose, product) is Proofs/MatrixArith.v; the history theorem is
+   Proofs/MatrixRefine.v.
+
+   Every lemma concludes [op ... = Ok ...]: the model reads and writes through checked accesses, so
+   this proves that no index left the buffer.  No ring law is used anywhere in this file. *)
+From Coq Require Import List Arith Lia Bool ZArith.
 From OV Require Import Base.Panic Base.Arith Model.Vector Model.Matrix.
 Import ListNotations.
 
+(* case analysis on every boolean test of naturals in the goal *)
+Ltac bdestr :=
+  cbn beta;
+  repeat match goal with
+  | |- context [Nat.eqb ?a ?b] => destruct (Nat.eqb_spec a b)
+  | |- context [Nat.ltb ?a ?b] => destruct (Nat.ltb_spec a b)
+  | |- context [Nat.leb ?a ?b] => destruct (Nat.leb_spec a b)
+  | |- context [Z.eqb ?a ?b] => destruct (Z.eqb_spec a b)
+  | |- context [Z.leb ?a ?b] => destruct (Z.leb_spec a b)
+  | |- context [Z.ltb ?a ?b] => destruct (Z.ltb_spec a b)
+  end; cbn [andb orb negb]; try reflexivity; try (exfalso; lia); try congruence.
+
+Lemma nth_repeat_lt {X} (x d : X) n k : k < n -> nth k (repeat x n) d = x.
+Proof. revert k; induction n as [|n IH]; intros [|k] H; cbn; auto; try lia. apply IH; lia. Qed.
+
 Section MatProofs.
 Context {A : Arith}.
+Notation T := (T A).
+Notation matrix := (matrix A).
 
-Definition wf (m : matrix A) : Prop := length (buf m) = rows m * cols m.
+Definition wf (m : matrix) : Prop := length (buf m) = rows m * cols m.
 
 Lemma mat_new_wf_lemma r c (x : A) : wf (mat_new r c x) /\ rows (mat_new r c x) = r /\ cols (mat_new r c x) = c.
 Proof. unfold wf, mat_new; cbn. now rewrite repeat_length. Qed.
+
+(* the textbook view of the flat buffer; used only under [wf] and with in-range indices *)
+Definition entry (m : matrix) (i j : nat) : T := nth (i * cols m + j) (buf m) zero.
+
+(* ---------- the index bijection ---------- *)
+Lemma idx_lt r c i j : i < r -> j < c -> i * c + j < r * c.
+Proof. nia. Qed.
+
+Lemma idx_inj c i j i' j' : j < c -> j' < c -> i * c + j = i' * c + j' -> i = i' /\ j = j'.
+Proof.
+  intros Hj Hj' E.
+  assert (Hi : i = i').
+  { apply (f_equal (fun x => x / c)) in E.
+    rewrite !Nat.div_add_l, !Nat.div_small in E by lia. lia. }
+  subst; split; lia.
+Qed.
+
+(* ---------- representation predicate: m is a well-formed r x c matrix whose entries are f ---------- *)
+Definition msp (r c : nat) (f : nat -> nat -> T) (m : matrix) : Prop :=
+  wf m /\ rows m = r /\ cols m = c /\ forall i j, i < r -> j < c -> entry m i j = f i j.
+
+Lemma msp_self m : wf m -> msp (rows m) (cols m) (entry m) m.
+Proof. intros H; repeat split; auto. Qed.
+
+Lemma msp_ext r c f g m :
+  msp r c f m -> (forall i j, i < r -> j < c -> f i j = g i j) -> msp r c g m.
+Proof.
+  intros (Hw & Hr & Hc & He) H; repeat split; auto.
+  intros i j Hi Hj. rewrite He by auto. auto.
+Qed.
+
+Lemma msp_new r c (x : T) : msp r c (fun _ _ => x) (mat_new r c x).
+Proof.
+  destruct (mat_new_wf_lemma r c x) as (Hw & Hr & Hc). repeat split; auto.
+  intros i j Hi Hj. unfold entry, mat_new; cbn. apply nth_repeat_lt. apply idx_lt; auto.
+Qed.
+
+Lemma mget_msp r c f m i j : msp r c f m -> i < r -> j < c -> mget m i j = Ok (f i j).
+Proof.
+  intros (Hw & Hr & Hc & He) Hi Hj. unfold mget.
+  rewrite (rd_ok _ _ zero).
+  - f_equal. apply He; auto.
+  - rewrite Hw, Hr, Hc. apply idx_lt; auto.
+Qed.
+
+Definition upd_fn (f : nat -> nat -> T) (i j : nat) (x : T) : nat -> nat -> T :=
+  fun i' j' => if (i' =? i) && (j' =? j) then x else f i' j'.
+
+Lemma mset_msp r c f m i j x : msp r c f m -> i < r -> j < c ->
+  exists m', mset m i j x = Ok m' /\ msp r c (upd_fn f i j x) m'.
+Proof.
+  intros (Hw & Hr & Hc & He) Hi Hj. unfold mset.
+  assert (Hlt : i * cols m + j < length (buf m)).
+  { rewrite Hw, Hr, Hc. apply idx_lt; auto. }
+  rewrite upd_ok by auto. cbn.
+  eexists; split; [reflexivity|].
+  unfold msp, wf, entry; cbn. rewrite upd_list_length. repeat split; auto.
+  intros i' j' Hi' Hj'. rewrite nth_upd_list by auto. unfold upd_fn.
+  destruct (Nat.eqb_spec (i' * cols m + j') (i * cols m + j)) as [E|E].
+  - apply idx_inj in E as [-> ->]; try lia. now rewrite !Nat.eqb_refl.
+  - destruct (Nat.eqb_spec i' i); destruct (Nat.eqb_spec j' j); cbn; subst; try congruence;
+      apply He; auto.
+Qed.
+
+(* ---------- loops over a matrix state ---------- *)
+Lemma for_msp r c (F : nat -> nat -> nat -> T) lo hi body (m : matrix) :
+  lo <= hi -> msp r c (F lo) m ->
+  (forall k s, lo <= k < hi -> msp r c (F k) s ->
+     exists s', body k s = Ok s' /\ msp r c (F (S k)) s') ->
+  exists m', for_ lo hi body m = Ok m' /\ msp r c (F hi) m'.
+Proof. intros Hle H0 Hstep. apply (for_inv (fun k s => msp r c (F k) s)); auto. Qed.
+
+
+(* ---------- vectors ---------- *)
+Definition vsp (n : nat) (f : nat -> T) (v : list T) : Prop :=
+  length v = n /\ forall k, k < n -> nth k v zero = f k.
+
+Lemma vsp_ext n f g v : vsp n f v -> (forall k, k < n -> f k = g k) -> vsp n g v.
+Proof. intros (Hl & He) H; split; auto. intros k Hk. rewrite He by auto. auto. Qed.
+
+Lemma vsp_self v : vsp (length v) (fun k => nth k v zero) v.
+Proof. split; auto. Qed.
+
+Lemma vsp_repeat n (x : T) : vsp n (fun _ => x) (repeat x n).
+Proof. split; [apply repeat_length|]. intros k Hk. now apply nth_repeat_lt. Qed.
+
+Lemma vsp_eq n f v w : vsp n f v -> vsp n f w -> v = w.
+Proof.
+  intros (Hl & He) (Hl' & He'). apply (nth_ext _ _ zero zero); [congruence|].
+  intros k Hk. rewrite He, He' by lia. reflexivity.
+Qed.
+
+Lemma rd_vsp n f v k : vsp n f v -> k < n -> rd v k = Ok (f k).
+Proof. intros (Hl & He) Hk. rewrite (rd_ok _ _ zero) by lia. now rewrite He. Qed.
+
+Lemma upd_vsp n f v k x : vsp n f v -> k < n ->
+  exists v', upd v k x = Ok v' /\ vsp n (fun k' => if k' =? k then x else f k') v'.
+Proof.
+  intros (Hl & He) Hk. rewrite upd_ok by lia. eexists; split; [reflexivity|]. split.
+  - now rewrite upd_list_length.
+  - intros k' Hk'. rewrite nth_upd_list by lia. destruct (k' =? k); auto.
+Qed.
+
+Lemma for_vsp n (F : nat -> nat -> T) lo hi body (v : list T) :
+  lo <= hi -> vsp n (F lo) v ->
+  (forall k s, lo <= k < hi -> vsp n (F k) s -> exists s', body k s = Ok s' /\ vsp n (F (S k)) s') ->
+  exists v', for_ lo hi body v = Ok v' /\ vsp n (F hi) v'.
+Proof. intros Hle H0 Hstep. apply (for_inv (fun k s => vsp n (F k) s)); auto. Qed.
+
+(* ---------- get_row / get_col ---------- *)
+Lemma get_row_msp r c f m row : msp r c f m -> row < r ->
+  exists v, get_row m row = Ok v /\ vsp c (fun j => f row j) v.
+Proof.
+  intros Hm Hrow. pose proof Hm as (Hw & Hr & Hc & He). unfold get_row.
+  rewrite Hr. destruct (Nat.leb_spec r row) as [Hx|_]; [lia|]. rewrite Hc.
+  destruct (for_vsp c (fun k j => if j <? k then f row j else zero) 0 c
+     (fun j v => let* x := rd (buf m) (row * c + j) in upd v j x) (repeat zero c)) as (v & E & Hv).
+  - lia.
+  - eapply vsp_ext; [apply vsp_repeat|]. intros; bdestr.
+  - intros k s Hk Hs.
+    assert (E : rd (buf m) (row * c + k) = Ok (f row k)).
+    { generalize (mget_msp r c f m row k Hm Hrow (proj2 Hk)). unfold mget. now rewrite Hc. }
+    rewrite E. cbn. destruct (upd_vsp c _ s k (f row k) Hs (proj2 Hk)) as (s' & E' & Hs').
+    exists s'; split; auto. eapply vsp_ext; [exact Hs'|]. intros j Hj. bdestr.
+  - exists v; split; auto. eapply vsp_ext; [exact Hv|]. intros j Hj. bdestr.
+Qed.
+
+Lemma get_col_msp r c f m col : msp r c f m -> col < c ->
+  exists v, get_col m col = Ok v /\ vsp r (fun i => f i col) v.
+Proof.
+  intros Hm Hcol. pose proof Hm as (Hw & Hr & Hc & He). unfold get_col.
+  rewrite Hc. destruct (Nat.leb_spec c col) as [Hx|_]; [lia|]. rewrite Hr.
+  destruct (for_vsp r (fun k i => if i <? k then f i col else zero) 0 r
+     (fun i v => let* x := rd (buf m) (i * c + col) in upd v i x) (repeat zero r)) as (v & E & Hv).
+  - lia.
+  - eapply vsp_ext; [apply vsp_repeat|]. intros; bdestr.
+  - intros k s Hk Hs.
+    assert (E : rd (buf m) (k * c + col) = Ok (f k col)).
+    { generalize (mget_msp r c f m k col Hm (proj2 Hk) Hcol). unfold mget. now rewrite Hc. }
+    rewrite E. cbn. destruct (upd_vsp r _ s k (f k col) Hs (proj2 Hk)) as (s' & E' & Hs').
+    exists s'; split; auto. eapply vsp_ext; [exact Hs'|]. intros j Hj. bdestr.
+  - exists v; split; auto. eapply vsp_ext; [exact Hv|]. intros j Hj. bdestr.
+Qed.
+
+Lemma get_row_guard (m : matrix) row : rows m <= row -> get_row m row = Panic Guard.
+Proof. intros H; unfold get_row. now destruct (Nat.leb_spec (rows m) row); [|lia]. Qed.
+Lemma get_col_guard (m : matrix) col : cols m <= col -> get_col m col = Panic Guard.
+Proof. intros H; unfold get_col. now destruct (Nat.leb_spec (cols m) col); [|lia]. Qed.
+
+
+(* ---------- one loop of single-element writes ("independent writes") ----------
+   iteration k computes a value (possibly from the current state) and stores it at (pi k, pj k);
+   [F k] describes the matrix after the iterations before k. *)
+Lemma for_mset r c (F : nat -> nat -> nat -> T) lo hi (pi pj : nat -> nat) (xv : nat -> T)
+      (g : nat -> matrix -> res T) (m : matrix) :
+  lo <= hi -> msp r c (F lo) m ->
+  (forall k, lo <= k < hi -> pi k < r /\ pj k < c) ->
+  (forall k s, lo <= k < hi -> msp r c (F k) s -> g k s = Ok (xv k)) ->
+  (forall k i j, lo <= k < hi -> i < r -> j < c ->
+     upd_fn (F k) (pi k) (pj k) (xv k) i j = F (S k) i j) ->
+  exists m', for_ lo hi (fun k s => let* x := g k s in mset s (pi k) (pj k) x) m = Ok m' /\
+             msp r c (F hi) m'.
+Proof.
+  intros Hle H0 Hp Hg HF. apply for_msp; auto.
+  intros k s Hk Hs. rewrite (Hg k s Hk Hs). cbn.
+  destruct (Hp k Hk) as (Hi & Hj).
+  destruct (mset_msp r c (F k) s (pi k) (pj k) (xv k) Hs Hi Hj) as (s' & E & Hs').
+  exists s'; split; auto. eapply msp_ext; [exact Hs'|]. intros; apply HF; auto.
+Qed.
+
+(* ---------- set_row / set_col / fill_row / fill_col ---------- *)
+Lemma set_row_msp r c f m row v : msp r c f m -> length v = c -> row < r ->
+  exists m', set_row m row v = Ok m' /\
+             msp r c (fun i j => if i =? row then nth j v zero else f i j) m'.
+Proof.
+  intros Hm Hv Hrow. pose proof Hm as (Hw & Hr & Hc & He). unfold set_row.
+  rewrite Hc, Hr, Hv, Nat.eqb_refl. cbn [negb]. destruct (Nat.leb_spec r row) as [Hx|_]; [lia|].
+  destruct (for_mset r c (fun k i j => if (i =? row) && (j <? k) then nth j v zero else f i j)
+              0 c (fun _ => row) (fun k => k) (fun k => nth k v zero) (fun k _ => rd v k) m)
+    as (m' & E & Hm'); [lia | | intros; lia | | | ].
+  - eapply msp_ext; [exact Hm|]. intros; bdestr.
+  - intros k s Hk _. apply rd_ok; lia.
+  - intros k i j Hk Hi Hj. unfold upd_fn. bdestr.
+  - exists m'; split; [exact E|]. eapply msp_ext; [exact Hm'|]. intros; bdestr.
+Qed.
+
+Lemma set_row_guard (m : matrix) row v :
+  length v <> cols m \/ rows m <= row -> set_row m row v = Panic Guard.
+Proof.
+  intros H; unfold set_row. destruct (Nat.eqb_spec (length v) (cols m)); cbn [negb]; auto.
+  destruct (Nat.leb_spec (rows m) row); auto. lia.
+Qed.
+
+Lemma set_col_msp r c f m col v : msp r c f m -> length v = r -> col < c ->
+  exists m', set_col m col v = Ok m' /\
+             msp r c (fun i j => if j =? col then nth i v zero else f i j) m'.
+Proof.
+  intros Hm Hv Hcol. pose proof Hm as (Hw & Hr & Hc & He). unfold set_col.
+  rewrite Hc, Hr, Hv, Nat.eqb_refl. cbn [negb]. destruct (Nat.leb_spec c col) as [Hx|_]; [lia|].
+  destruct (for_mset r c (fun k i j => if (j =? col) && (i <? k) then nth i v zero else f i j)
+              0 r (fun k => k) (fun _ => col) (fun k => nth k v zero) (fun k _ => rd v k) m)
+    as (m' & E & Hm'); [lia | | intros; lia | | | ].
+  - eapply msp_ext; [exact Hm|]. intros; bdestr.
+  - intros k s Hk _. apply rd_ok; lia.
+  - intros k i j Hk Hi Hj. unfold upd_fn. bdestr.
+  - exists m'; split; [exact E|]. eapply msp_ext; [exact Hm'|]. intros; bdestr.
+Qed.
+
+Lemma set_col_guard (m : matrix) col v :
+  length v <> rows m \/ cols m <= col -> set_col m col v = Panic Guard.
+Proof.
+  intros H; unfold set_col. destruct (Nat.eqb_spec (length v) (rows m)); cbn [negb]; auto.
+  destruct (Nat.leb_spec (cols m) col); auto. lia.
+Qed.
+
+Lemma fill_row_msp r c f m row x : msp r c f m -> row < r ->
+  exists m', fill_row m row x = Ok m' /\ msp r c (fun i j => if i =? row then x else f i j) m'.
+Proof.
+  intros Hm Hrow. pose proof Hm as (Hw & Hr & Hc & He). unfold fill_row.
+  rewrite Hc, Hr. destruct (Nat.leb_spec r row) as [Hx|_]; [lia|].
+  destruct (for_mset r c (fun k i j => if (i =? row) && (j <? k) then x else f i j)
+              0 c (fun _ => row) (fun k => k) (fun _ => x) (fun _ _ => Ok x) m)
+    as (m' & E & Hm'); [lia | | intros; lia | | | ].
+  - eapply msp_ext; [exact Hm|]. intros; bdestr.
+  - reflexivity.
+  - intros k i j Hk Hi Hj. unfold upd_fn. bdestr.
+  - exists m'; split; [exact E|]. eapply msp_ext; [exact Hm'|]. intros; bdestr.
+Qed.
+
+Lemma fill_row_guard (m : matrix) row x : rows m <= row -> fill_row m row x = Panic Guard.
+Proof. intros H; unfold fill_row. now destruct (Nat.leb_spec (rows m) row); [|lia]. Qed.
+
+Lemma fill_col_msp r c f m col x : msp r c f m -> col < c ->
+  exists m', fill_col m col x = Ok m' /\ msp r c (fun i j => if j =? col then x else f i j) m'.
+Proof.
+  intros Hm Hcol. pose proof Hm as (Hw & Hr & Hc & He). unfold fill_col.
+  rewrite Hc, Hr. destruct (Nat.leb_spec c col) as [Hx|_]; [lia|].
+  destruct (for_mset r c (fun k i j => if (j =? col) && (i <? k) then x else f i j)
+              0 r (fun k => k) (fun _ => col) (fun _ => x) (fun _ _ => Ok x) m)
+    as (m' & E & Hm'); [lia | | intros; lia | | | ].
+  - eapply msp_ext; [exact Hm|]. intros; bdestr.
+  - reflexivity.
+  - intros k i j Hk Hi Hj. unfold upd_fn. bdestr.
+  - exists m'; split; [exact E|]. eapply msp_ext; [exact Hm'|]. intros; bdestr.
+Qed.
+
+Lemma fill_col_guard (m : matrix) col x : cols m <= col -> fill_col m col x = Panic Guard.
+Proof. intros H; unfold fill_col. now destruct (Nat.leb_spec (cols m) col); [|lia]. Qed.
+
+
+(* ---------- fill / fill_diag / eye / fill_band ---------- *)
+Lemma fill_msp r c f m x : msp r c f m ->
+  exists m', fill m x = Ok m' /\ msp r c (fun _ _ => x) m'.
+Proof.
+  intros Hm. pose proof Hm as (Hw & Hr & Hc & He). unfold fill. rewrite Hr.
+  destruct (for_msp r c (fun k i j => if i <? k then x else f i j) 0 r
+     (fun i s => for_ 0 (cols s) (fun j s => mset s i j x) s) m) as (m' & E & Hm'); [lia| | |].
+  - eapply msp_ext; [exact Hm|]. intros; bdestr.
+  - intros k s Hk Hs. pose proof Hs as (_ & _ & Hcs & _). rewrite Hcs.
+    destruct (for_mset r c (fun q i j => if (i <? k) || ((i =? k) && (j <? q)) then x else f i j)
+                0 c (fun _ => k) (fun q => q) (fun _ => x) (fun _ _ => Ok x) s)
+      as (s' & E' & Hs'); [lia | | intros; lia | | | ].
+    + eapply msp_ext; [exact Hs|]. intros; bdestr.
+    + reflexivity.
+    + intros q i j Hq Hi Hj. unfold upd_fn. bdestr.
+    + exists s'; split; [exact E'|]. eapply msp_ext; [exact Hs'|]. intros; bdestr.
+  - exists m'; split; [exact E|]. eapply msp_ext; [exact Hm'|]. intros; bdestr.
+Qed.
+
+Lemma fill_diag_msp r c f m x : msp r c f m ->
+  exists m', fill_diag m x = Ok m' /\ msp r c (fun i j => if i =? j then x else f i j) m'.
+Proof.
+  intros Hm. pose proof Hm as (Hw & Hr & Hc & He). unfold fill_diag. rewrite Hr, Hc.
+  set (n := if c <? r then c else r).
+  assert (Hn : n <= r /\ n <= c /\ (r <= n \/ c <= n)).
+  { unfold n. destruct (Nat.ltb_spec c r); lia. }
+  destruct (for_mset r c (fun k i j => if (i =? j) && (i <? k) then x else f i j)
+              0 n (fun k => k) (fun k => k) (fun _ => x) (fun _ _ => Ok x) m)
+    as (m' & E & Hm'); [lia | | intros; lia | | | ].
+  - eapply msp_ext; [exact Hm|]. intros; bdestr.
+  - reflexivity.
+  - intros k i j Hk Hi Hj. unfold upd_fn. bdestr.
+  - exists m'; split; [exact E|]. eapply msp_ext; [exact Hm'|]. intros; bdestr.
+Qed.
+
+Lemma eye_msp n : exists m', eye n = Ok m' /\ msp n n (fun i j => if i =? j then @one A else zero) m'.
+Proof.
+  unfold eye.
+  destruct (for_mset n n (fun k i j => if (i =? j) && (i <? k) then @one A else zero)
+              0 n (fun k => k) (fun k => k) (fun _ => one) (fun _ _ => Ok one) (mat_new n n zero))
+    as (m' & E & Hm'); [lia | | intros; lia | | | ].
+  - eapply msp_ext; [apply msp_new|]. intros; bdestr.
+  - reflexivity.
+  - intros k i j Hk Hi Hj. unfold upd_fn. bdestr.
+  - exists m'; split; [exact E|]. eapply msp_ext; [exact Hm'|]. intros; bdestr.
+Qed.
+
+Lemma fill_band_msp r c f m (o : Z) x : msp r c f m ->
+  exists m', fill_band m o x = Ok m' /\
+    msp r c (fun i j => if (Z.of_nat j =? Z.of_nat i + o)%Z then x else f i j) m'.
+Proof.
+  intros Hm. pose proof Hm as (Hw & Hr & Hc & He). unfold fill_band. rewrite Hr.
+  destruct (for_msp r c (fun k i j => if (i <? k) && (Z.of_nat j =? Z.of_nat i + o)%Z then x else f i j) 0 r
+     (fun row s => let i := (Z.of_nat row + o)%Z in
+        if (0 <=? i)%Z && (Z.to_nat i <? cols s) then mset s row (Z.to_nat i) x else Ok s) m)
+    as (m' & E & Hm'); [lia| | |].
+  - eapply msp_ext; [exact Hm|]. intros; bdestr.
+  - intros k s Hk Hs. pose proof Hs as (_ & _ & Hcs & _). rewrite Hcs. cbn zeta.
+    destruct (Z.leb_spec 0 (Z.of_nat k + o)) as [H0|H0]; cbn [andb].
+    + destruct (Nat.ltb_spec (Z.to_nat (Z.of_nat k + o)) c) as [H1|H1].
+      * destruct (mset_msp r c _ s k (Z.to_nat (Z.of_nat k + o)) x Hs (proj2 Hk) H1) as (s' & E' & Hs').
+        exists s'; split; auto. eapply msp_ext; [exact Hs'|]. intros i j Hi Hj. unfold upd_fn. bdestr.
+      * exists s; split; auto. eapply msp_ext; [exact Hs|]. intros i j Hi Hj. bdestr.
+    + exists s; split; auto. eapply msp_ext; [exact Hs|]. intros i j Hi Hj. bdestr.
+  - exists m'; split; [exact E|]. eapply msp_ext; [exact Hm'|]. intros; bdestr.
+Qed.
+
+Lemma fill_tridiag_msp r c f m l d u : msp r c f m ->
+  exists m', fill_tridiag m l d u = Ok m' /\
+    msp r c (fun i j => if j =? i + 1 then u else if i =? j then d else if i =? j + 1 then l else f i j) m'.
+Proof.
+  intros Hm. unfold fill_tridiag.
+  destruct (fill_band_msp r c f m (-1)%Z l Hm) as (m1 & E1 & H1). rewrite E1; cbn [bind].
+  destruct (fill_diag_msp r c _ m1 d H1) as (m2 & E2 & H2). rewrite E2; cbn [bind].
+  destruct (fill_band_msp r c _ m2 1%Z u H2) as (m3 & E3 & H3).
+  exists m3; split; auto. eapply msp_ext; [exact H3|]. intros i j Hi Hj. bdestr.
+Qed.
+
+
+(* ---------- swap_elem / swap_rows ---------- *)
+Lemma swap_elem_msp r c f m r1 c1 r2 c2 : msp r c f m -> r1 < r -> c1 < c -> r2 < r -> c2 < c ->
+  exists m', swap_elem m r1 c1 r2 c2 = Ok m' /\
+    msp r c (fun i j => if (i =? r1) && (j =? c1) then f r2 c2
+                        else if (i =? r2) && (j =? c2) then f r1 c1 else f i j) m'.
+Proof.
+  intros Hm H1 H2 H3 H4. unfold swap_elem.
+  rewrite (mget_msp r c f m r1 c1 Hm H1 H2), (mget_msp r c f m r2 c2 Hm H3 H4). cbn [bind].
+  destruct (mset_msp r c f m r2 c2 (f r1 c1) Hm H3 H4) as (m1 & E1 & Hm1). rewrite E1; cbn [bind].
+  destruct (mset_msp r c _ m1 r1 c1 (f r2 c2) Hm1 H1 H2) as (m2 & E2 & Hm2).
+  exists m2; split; [exact E2|exact Hm2].
+Qed.
+
+Lemma swap_rows_msp r c f m r1 r2 : msp r c f m -> r1 < r -> r2 < r ->
+  exists m', swap_rows m r1 r2 = Ok m' /\
+    msp r c (fun i j => if i =? r1 then f r2 j else if i =? r2 then f r1 j else f i j) m'.
+Proof.
+  intros Hm H1 H2. pose proof Hm as (Hw & Hr & Hc & He). unfold swap_rows. rewrite Hr, Hc.
+  destruct (Nat.leb_spec r r1) as [Hx|_]; [lia|]. destruct (Nat.leb_spec r r2) as [Hx|_]; [lia|]. cbn [orb].
+  destruct (for_msp r c (fun k i j => if j <? k then (if i =? r1 then f r2 j else if i =? r2 then f r1 j else f i j) else f i j)
+              0 c (fun j s => swap_elem s r1 j r2 j) m) as (m' & E & Hm'); [lia| | |].
+  - eapply msp_ext; [exact Hm|]. intros; bdestr.
+  - intros k s Hk Hs.
+    destruct (swap_elem_msp r c _ s r1 k r2 k Hs H1 (proj2 Hk) H2 (proj2 Hk)) as (s' & E' & Hs').
+    exists s'; split; auto. eapply msp_ext; [exact Hs'|]. intros i j Hi Hj. bdestr.
+  - exists m'; split; [exact E|]. eapply msp_ext; [exact Hm'|]. intros; bdestr.
+Qed.
+
+Lemma swap_rows_guard (m : matrix) r1 r2 : rows m <= r1 \/ rows m <= r2 -> swap_rows m r1 r2 = Panic Guard.
+Proof.
+  intros H; unfold swap_rows.
+  destruct (Nat.leb_spec (rows m) r1); destruct (Nat.leb_spec (rows m) r2); cbn [orb]; auto; lia.
+Qed.
+
+(* ---------- delete_row ---------- *)
+Lemma nth_firstn_lt {X} (l : list X) a k d : k < a -> nth k (firstn a l) d = nth k l d.
+Proof.
+  revert a k; induction l as [|h t IH]; intros [|a] [|k] H; cbn; auto; try lia. apply IH; lia.
+Qed.
+
+Lemma nth_skipn_add {X} (l : list X) b k d : nth k (skipn b l) d = nth (b + k) l d.
+Proof.
+  revert l; induction b as [|b IH]; intros [|h t]; cbn; auto. now destruct k.
+Qed.
+
+Lemma nth_cut {X} (l : list X) a b k d : a <= b -> b <= length l ->
+  nth k (firstn a l ++ skipn b l) d = if k <? a then nth k l d else nth (k + (b - a)) l d.
+Proof.
+  intros Hab Hb. assert (Hl : length (firstn a l) = a) by (apply firstn_length_le; lia).
+  destruct (Nat.ltb_spec k a).
+  - rewrite app_nth1 by lia. now apply nth_firstn_lt.
+  - rewrite app_nth2 by lia. rewrite Hl, nth_skipn_add. f_equal; lia.
+Qed.
+
+Lemma delete_row_msp r c f m row : msp r c f m -> row < r ->
+  exists m', delete_row m row = Ok m' /\
+    msp (r - 1) c (fun i j => if i <? row then f i j else f (S i) j) m'.
+Proof.
+  intros Hm Hrow. pose proof Hm as (Hw & Hr & Hc & He). unfold delete_row. rewrite Hr, Hc.
+  destruct (Nat.leb_spec r row) as [Hx|_]; [lia|].
+  assert (Hlen : (row + 1) * c <= length (buf m)).
+  { rewrite Hw, Hr, Hc. apply Nat.mul_le_mono_r. lia. }
+  destruct (Nat.leb_spec ((row + 1) * c) (length (buf m))) as [_|Hx]; [|lia].
+  eexists; split; [reflexivity|].
+  unfold msp, wf, entry; cbn [buf rows cols]. repeat split; auto.
+  - rewrite app_length, firstn_length_le, skipn_length by nia. rewrite Hw, Hr, Hc. nia.
+  - intros i j Hi Hj. rewrite nth_cut by nia.
+    assert (Hi' : i < r) by lia.
+    destruct (Nat.ltb_spec i row); destruct (Nat.ltb_spec (i * c + j) (row * c)); try nia.
+    + specialize (He i j Hi' Hj). unfold entry in He. now rewrite Hc in He.
+    + assert (HS : S i < r) by lia. specialize (He (S i) j HS Hj). unfold entry in He.
+      rewrite Hc in He. rewrite <- He. f_equal. nia.
+Qed.
+
+Lemma delete_row_guard (m : matrix) row : rows m <= row -> delete_row m row = Panic Guard.
+Proof. intros H; unfold delete_row. now destruct (Nat.leb_spec (rows m) row); [|lia]. Qed.
+
+(* ---------- resize ---------- *)
+Lemma resize_msp r c f m nr nc : msp r c f m ->
+  exists m', resize m nr nc = Ok m' /\
+    msp nr nc (fun i j => if (i <? r) && (j <? c) then f i j else zero) m'.
+Proof.
+  intros Hm. pose proof Hm as (Hw & Hr & Hc & He). unfold resize. rewrite Hr, Hc.
+  destruct (for_msp nr nc (fun k i j => if (i <? k) && ((i <? r) && (j <? c)) then f i j else zero) 0 nr
+     (fun i s => for_ 0 nc (fun j s =>
+        if (i <? r) && (j <? c) then let* x := mget m i j in mset s i j x else Ok s) s)
+     (mat_new nr nc zero)) as (m' & E & Hm'); [lia| | |].
+  - eapply msp_ext; [apply msp_new|]. intros; bdestr.
+  - intros k s Hk Hs.
+    destruct (for_msp nr nc
+       (fun q i j => if ((i <? k) || ((i =? k) && (j <? q))) && ((i <? r) && (j <? c)) then f i j else zero) 0 nc
+       (fun j s => if (k <? r) && (j <? c) then let* x := mget m k j in mset s k j x else Ok s) s)
+      as (s' & E' & Hs'); [lia| | |].
+    + eapply msp_ext; [exact Hs|]. intros; bdestr.
+    + intros q t Hq Ht.
+      destruct (Nat.ltb_spec k r) as [Hkr|Hkr]; cbn [andb].
+      * destruct (Nat.ltb_spec q c) as [Hqc|Hqc].
+        -- rewrite (mget_msp r c f m k q Hm Hkr Hqc). cbn [bind].
+           destruct (mset_msp nr nc _ t k q (f k q) Ht (proj2 Hk) (proj2 Hq)) as (t' & Et & Ht').
+           exists t'; split; auto. eapply msp_ext; [exact Ht'|]. intros i j Hi Hj. unfold upd_fn. bdestr.
+        -- exists t; split; auto. eapply msp_ext; [exact Ht|]. intros i j Hi Hj. bdestr.
+      * exists t; split; auto. eapply msp_ext; [exact Ht|]. intros i j Hi Hj. bdestr.
+    + exists s'; split; [exact E'|]. eapply msp_ext; [exact Hs'|]. intros; bdestr.
+  - exists m'; split; [exact E|]. eapply msp_ext; [exact Hm'|]. intros; bdestr.
+Qed.
+
+
+(* ---------- multiply: matrix * vector as row dot products ----------
+   [dot_raw] and [sum_n] are the same left fold from zero in index order, so the dot product IS the
+   textbook sum, definitionally: no ring law is needed (the statement also holds for floats). *)
+Fixpoint sum_acc (a : T) (n : nat) (g : nat -> T) : T :=
+  match n with 0 => a | S n' => add (sum_acc a n' g) (g n') end.
+
+Lemma sum_acc_zero n g : sum_acc zero n g = sum_n n g.
+Proof. induction n as [|n IH]; cbn; congruence. Qed.
+
+Lemma sum_acc_shift a n g : sum_acc a (S n) g = sum_acc (add a (g 0)) n (fun k => g (S k)).
+Proof.
+  induction n as [|n IH]; [reflexivity|].
+  change (sum_acc a (S (S n)) g) with (add (sum_acc a (S n) g) (g (S n))).
+  rewrite IH. reflexivity.
+Qed.
+
+Lemma dot_fold_sum (u w : list T) a : length u = length w ->
+  fold_left (fun acc p => add acc (mul (fst p) (snd p))) (combine u w) a =
+  sum_acc a (length u) (fun k => mul (nth k u zero) (nth k w zero)).
+Proof.
+  revert w a; induction u as [|x u IH]; intros [|y w] a H; cbn in H; try discriminate; [reflexivity|].
+  cbn [combine fold_left length fst snd]. rewrite sum_acc_shift. cbn [nth].
+  apply IH. lia.
+Qed.
+
+Lemma dot_raw_sum (u w : list T) : length u = length w ->
+  dot_raw u w = sum_n (length u) (fun k => mul (nth k u zero) (nth k w zero)).
+Proof. intros H. unfold dot_raw. rewrite dot_fold_sum by auto. apply sum_acc_zero. Qed.
+
+Lemma for_push n (g : nat -> T) body :
+  (forall k acc, k < n -> body k acc = Ok (acc ++ [g k])) ->
+  exists v, for_ 0 n body [] = Ok v /\ vsp n g v.
+Proof.
+  intros Hb.
+  destruct (for_inv (fun k acc => vsp k g acc) 0 n body []) as (v & E & Hv); [lia| | |].
+  - split; auto. intros; lia.
+  - intros k acc Hk (Hl & He). rewrite Hb by lia. eexists; split; [reflexivity|]. split.
+    + rewrite app_length; cbn; lia.
+    + intros i Hi. destruct (Nat.eq_dec i k) as [->|Hne].
+      * rewrite app_nth2 by lia. now rewrite Hl, Nat.sub_diag.
+      * rewrite app_nth1 by lia. apply He; lia.
+  - exists v; auto.
+Qed.
+
+Lemma multiply_msp r c f m v : msp r c f m -> length v = c ->
+  exists w, multiply m v = Ok w /\
+    vsp r (fun i => sum_n c (fun k => mul (f i k) (nth k v zero))) w.
+Proof.
+  intros Hm Hv. pose proof Hm as (Hw & Hr & Hc & He). unfold multiply.
+  rewrite Hc, Hr, Hv, Nat.eqb_refl. cbn [negb].
+  apply for_push. intros k acc Hk.
+  destruct (get_row_msp r c f m k Hm Hk) as (rv & E & Hl & Hrv). rewrite E. cbn [bind].
+  unfold dot. rewrite Hl, Hv, Nat.eqb_refl. cbn [bind]. do 2 f_equal. f_equal.
+  rewrite dot_raw_sum by lia. rewrite Hl. apply sum_n_ext. intros q Hq. now rewrite Hrv.
+Qed.
+
+Lemma multiply_guard (m : matrix) v : length v <> cols m -> multiply m v = Panic Guard.
+Proof. intros H; unfold multiply. now destruct (Nat.eqb_spec (length v) (cols m)). Qed.
 
 End MatProofs.
